@@ -7,6 +7,7 @@ From VQ Require Import Model.Einops Model.Layout Glue.EinopsGlueBase Glue.Einops
 From VQ Require Import Model.Machine Model.History Proofs.HistoryProofs.
 From VQ Require Import Glue.Pin_fp_C02.
 From VQ Require Import Model.Memo Proofs.MemoProofs Glue.Pin_p_simvq_codebook.
+From VQ Require Import Model.GroupCat Proofs.GroupCatProofs Glue.GroupCatGlue.
 Import ListNotations.
 Open Scope R_scope.
 
@@ -212,3 +213,34 @@ Theorem C02_tie_simvq_codebook_derivation_pinned :
   p_simvq_codebook.p_simvq_codebook = pinned_p_simvq_codebook.
 Proof. exact (@Pin_p_simvq_codebook.pin_p_simvq_codebook). Qed.
 Print Assumptions C02_tie_simvq_codebook_derivation_pinned.
+
+(* implicit *)
+Theorem C02_grouped_decode_is_channel_last_output :
+  forall (A : Type) (dg : nat) (X : nat -> nat -> nat -> A) (b p c : nat),
+       (0 < dg)%nat ->
+       @cat_last A dg (fun g : nat => @to_last A (@chunk_ax1 A dg X g)) b p c = @to_last A X b p c.
+Proof. exact (@GroupCatProofs.decode_cat_last_is_to_last). Qed.
+Print Assumptions C02_grouped_decode_is_channel_last_output.
+
+Theorem C02_grouped_decode_shape :
+  forall G B P dg : nat, cat_shape AxLast G (B, P, dg) = (B, P, (G * dg)%nat).
+Proof. exact (@GroupCatProofs.decode_shape_last). Qed.
+Print Assumptions C02_grouped_decode_shape.
+
+Theorem C02_grouped_decode_on_axis_1_has_wrong_shape :
+  forall G B P dg : nat,
+       (1 < G)%nat -> (0 < dg)%nat -> cat_shape Ax1 G (B, P, dg) <> (B, P, (G * dg)%nat).
+Proof. exact (@GroupCatProofs.decode_shape_ax1_wrong). Qed.
+Print Assumptions C02_grouped_decode_on_axis_1_has_wrong_shape.
+
+Theorem C02_tie_grouped_decode_axes :
+  forall image : bool,
+       decode_axis "grvq" image p_residual.p_residual = Some AxLast /\
+       decode_axis "grlfq" image p_residual.p_residual = Some AxLast.
+Proof. exact (@GroupCatGlue.source_decode_axes_vq_lfq). Qed.
+Print Assumptions C02_tie_grouped_decode_axes.
+
+Theorem C02_tie_grouped_fsq_decode_axis_sequences :
+  decode_axis "grfsq" false p_residual.p_residual = Some AxLast.
+Proof. exact (@GroupCatGlue.source_decode_axis_fsq_sequences). Qed.
+Print Assumptions C02_tie_grouped_fsq_decode_axis_sequences.
